@@ -185,6 +185,9 @@ func ruleMultiStream(c *Ctx, r *Report, prefix string) {
 							if !sp.ErrNonNil && sp.ErrVal != ev {
 								bad = "a failing probe does not return an error"
 							}
+							if sp.ErrVal == ev {
+								nClean++ // the probe's own error (io.EOF at the end of the input) is handed out unchanged
+							}
 						}
 					}
 				}
